@@ -262,6 +262,24 @@ def gen(repo):
     if not m:
         raise ParseError("output_init: unlink(tmp) test not found")
     s += "Definition unlink_out_guard : string := %s.\n" % coq_str(norm(m.group(1)))
+    # optional guard (added by the repair of the -f data loss): before the output name is unlinked, stat() it and skip
+    # the operand if it leads to the very file that is being read
+    checks, under = False, []
+    sm = re.search(r"\bstat\s*\(\s*tmp\s*,\s*&\s*(\w+)\s*\)", oi)
+    um = re.search(r"\bunlink\s*\(\s*tmp\s*\)", oi)
+    if sm and um and sm.start() < um.start():
+        v = sm.group(1)
+        cm = re.search(r"if\s*\(([^{;]*\bstat\s*\(\s*tmp[^{;]*)\)\s*\{(.*?)\}", oi, re.S)
+        if cm:
+            c = norm(cm.group(1))
+            body = cm.group(2)
+            checks = bool(c.startswith("0==stat(tmp,&%s)&&" % v) and ("%s.st_dev==sbuf->st_dev" % v) in c
+                          and ("%s.st_ino==sbuf->st_ino" % v) in c and "||" not in c
+                          and re.search(r"\bwarn\w*\s*\(", body) and re.search(r"\bbreak\s*;|\breturn\s*-\s*1\s*;", body)
+                          and not re.search(r"\bunlink\s*\(|\bopen\s*\(", body))
+            under = [x for x in enclosing_conditions(oi, cm.start()) if not x.startswith("switch")]
+    s += "Definition output_init_checks_same_file : bool := %s.\n" % ("true" if checks else "false")
+    s += "Definition same_file_under : list string := %s%%string.\n" % coq_strlist(under)
     order = call_order(oi, ["suffix_xform", "unlink", "open"], [("opathn_set", r"\bopathn\s*=\s*tmp\b")])
     s += "Definition output_init_order : list string := %s%%string.\n" % coq_strlist(order)
     m = re.search(r'strcpy\s*\(\s*tmp\s*\+\s*len\s*,\s*("[^"]*")\s*\)', oi)
